@@ -176,7 +176,7 @@ func indentTo(r *Rng, col int) string {
 	return b.String()
 }
 
-var argAlphabet = []string{"a", "b", "Z", "0", "9", " ", " ", "\t", "\n", "\n", "\"", "'", "\\", "/", "*", "+", ";", "{", "}", "é", "€", "//", "/*", "*/", ":", ".", "-", "_", "\r\n", "x y", "word"}
+var argAlphabet = []string{"a", "b", "Z", "0", "9", " ", " ", "\t", "\n", "\n", "\"", "'", "\\", "/", "*", "+", ";", "{", "}", "é", "€", "//", "/*", "*/", ":", ".", "-", "_", "\r\n", "x y", "word", "\f", "\v", "\u00a0", "\u3000", "\u0085", "\r", "\r"}
 
 func genArgValue(r *Rng) string {
 	n := r.Intn(8)
